@@ -78,7 +78,8 @@ def gen_cases(rng, tier):
             elif v == "tied":
                 r0 = bs[pos]["r"]
                 if len(r0) >= 2:
-                    bs[pos]["r"] = [r0[0] + r0[1]] + r0[2:]
+                    j = rng.randrange(len(r0) - 1)          # a tie in ANY position, not only the first
+                    bs[pos]["r"] = r0[:j] + [r0[j] + r0[j + 1]] + r0[j + 2:]
                 else:
                     other = [x for x in c["profile"]["cands"] if x != r0[0][0]][0]
                     bs[pos]["r"] = [[r0[0][0], other]]
